@@ -132,9 +132,17 @@ SrcExpr(cs, ps) ==
   LET sidx == { k \in 1..Len(ps.dp.code) : ps.dp.code[k].ln = cs.srcln } IN
   IF sidx = {} THEN Nil ELSE ExprOf(ps.dp.code[CHOOSE k \in sidx : \A j \in sidx : k <= j], IF cs.slot = "a1p" THEN "a1" ELSE cs.slot)
 
+\* a bare literal (possibly negated): its value is compared token against token even where the value domain of
+\* the machine ends (numbers beyond Lim evaluate to "uncomputed" on both sides)
+IsLiteralExpr(e) == e[1] = "num" \/ (e[1] = "par" /\ e[2][1] = "num") \/ (e[1] = "un" /\ e[3][1] = "num")
 Verdict(cs) ==
   LET vd == JudgeAll(cs) IN
-  IF vd.ok THEN vd
+  IF vd.ok /\ vd.clause \in {"ok", "unjudged"} THEN
+     (LET ps == Parsed(cs)  e == SrcExpr(cs, ps) IN
+      IF e[1] # "nil" /\ IsLiteralExpr(e) /\ RegroupKey(cs, ps) = "literal"
+      THEN [vd EXCEPT !.ok = FALSE, !.clause = "literal", !.key = "literal:emitted-literal-denotes-another-number", !.detail = "beyond the value domain of the machine"]
+      ELSE vd)
+  ELSE IF vd.ok THEN vd
   ELSE LET ps == Parsed(cs) IN
        IF ~ps.sok THEN vd
        ELSE LET e == SrcExpr(cs, ps)
